@@ -1,0 +1,61 @@
+//go:build verif
+
+package message
+
+import (
+	"sort"
+)
+
+// VerifPair is one stored (ssid, subscriber) pair of the trie.
+type VerifPair struct {
+	Ssid Ssid
+	ID   string
+	Type SubscriberType
+}
+
+// VerifDump returns the number of trie nodes (root excluded) and every stored pair.
+func (t *Trie) VerifDump() (nodes int, pairs []VerifPair, count int) {
+	t.RLock()
+	defer t.RUnlock()
+	var walk func(n *node, path Ssid)
+	walk = func(n *node, path Ssid) {
+		for _, s := range n.subs {
+			pairs = append(pairs, VerifPair{Ssid: append(Ssid(nil), path...), ID: s.ID(), Type: s.Type()})
+		}
+		for w, c := range n.children {
+			nodes++
+			walk(c, append(append(Ssid(nil), path...), w))
+		}
+	}
+	walk(t.root, nil)
+	sort.Slice(pairs, func(i, j int) bool {
+		a, b := pairs[i], pairs[j]
+		for k := 0; k < len(a.Ssid) && k < len(b.Ssid); k++ {
+			if a.Ssid[k] != b.Ssid[k] {
+				return a.Ssid[k] < b.Ssid[k]
+			}
+		}
+		if len(a.Ssid) != len(b.Ssid) {
+			return len(a.Ssid) < len(b.Ssid)
+		}
+		return a.ID < b.ID
+	})
+	return nodes, pairs, t.count
+}
+
+// VerifDump returns a copy of all counters, sorted by channel then ssid length.
+func (s *Counters) VerifDump() []Counter {
+	all := s.All()
+	sort.Slice(all, func(i, j int) bool {
+		if string(all[i].Channel) != string(all[j].Channel) {
+			return string(all[i].Channel) < string(all[j].Channel)
+		}
+		return len(all[i].Ssid) < len(all[j].Ssid)
+	})
+	return all
+}
+
+// VerifWildcards exposes the reserved ssid words.
+func VerifWildcards() (single, multi, shareWord, presenceWord uint32) {
+	return wildcard, multiWildcard, share, presence
+}
